@@ -146,7 +146,7 @@ func EmitCases(prog *Prog, methods []*DriverMethod) string {
 			fmt.Fprintf(&sb, "\t%q\n", k.Path)
 		}
 	}
-	sb.WriteString(")\n\nvar (\n\t_ ext.MyInt\n\t_ odd.OInt\n\t_ lib.LibInt\n\t_ am.AInt\n\t_ bm.BInt\n\t_ oh.Rec\n\t_ = hooks.Finalize\n\t_ = hooksv2.Finalize\n\t_ e.Code\n\t_ audit.Stamp\n\t_ = tr.Reset\n\t_ unsafe.Pointer\n)\n\n")
+	sb.WriteString(")\n\nvar (\n\t_ ext.MyInt\n\t_ odd.OInt\n\t_ lib.LibInt\n\t_ am.AInt\n\t_ bm.BInt\n\t_ oh.Rec\n\t_ = hooks.Finalize\n\t_ = hooksv2.Finalize\n\t_ = dotfn.DotIntToStr\n\t_ e.Code\n\t_ audit.Stamp\n\t_ = tr.Reset\n\t_ unsafe.Pointer\n)\n\n")
 	retVars := reRetVar.FindAllStringSubmatch(prog.HomeFuncs+"\n"+prog.SetupFuncs, -1)
 	for _, dm := range methods {
 		emitMethod(&sb, prog, dm, retVars)
@@ -183,7 +183,7 @@ func emitMethod(sb *strings.Builder, prog *Prog, dm *DriverMethod, retVars [][]s
 		if !h.srcPtr {
 			s = "*r"
 		}
-		call := fmt.Sprintf("%s(%s, %s", h.name, d, s)
+		call := fmt.Sprintf("%s(%s, %s", DriverFuncName(h.name), d, s)
 		if h.extras {
 			for i := range p.Extras {
 				call += fmt.Sprintf(", a%d", i)
@@ -239,7 +239,7 @@ func emitMethod(sb *strings.Builder, prog *Prog, dm *DriverMethod, retVars [][]s
 			case a.ArgConv == "typecast":
 				arg = fmt.Sprintf("(%s)(%s)", p.typeStr(p.Conv[a.Converter].Params().At(0).Type()), src)
 			}
-			call := fmt.Sprintf("%s(%s)", a.Converter, arg)
+			call := fmt.Sprintf("%s(%s)", DriverFuncName(a.Converter), arg)
 			if a.ConvErr {
 				fmt.Fprintf(sb, "\t{\n\t\tv, e := %s\n\t\tif e != nil {\n\t\t\treturn e\n\t\t}\n\t\t%s = v\n\t}\n", call, lhs)
 				return
